@@ -4,6 +4,7 @@
   between what was given (with the mode of every item) and what the decoder reads.
 -/
 import QV.Proofs.WriterWalk
+import QV.Proofs.WriterAudit
 
 namespace QV.Writer
 open QV QV.Wire QV.Spec QV.ServerSafety
@@ -295,6 +296,7 @@ theorem segment_from_new (macFn : Tsig → List UInt8 → List UInt8) (hmac : Ma
       aF.hdr = d.msg.header ∧ aF.hdr.z = 0 ∧ m.size ≤ aF.limit ∧
       AbsCfg (run { w := { s0 with mode := mode } } ops).1.w aF ∧
       aF.mode = Driver.toSpecMode (run { w := { s0 with mode := mode } } ops).1.w.mode ∧
+      Message.auditPointers d aF.itemModes.reverse aF.mode = .ok () ∧
       (let modes := aF.itemModes.reverse
        let qs := aF.questions.reverse
        let nq := qs.length
@@ -324,7 +326,21 @@ theorem segment_from_new (macFn : Tsig → List UInt8 → List UInt8) (hmac : Ma
   obtain ⟨d', hd', hcl⟩ := segment_content macFn _ _ _ aF hIR hLR hT hC hG hAF.mode m mac hf hsz
   rw [hd] at hd'
   cases hd'
-  exact ⟨m, mac, d, aF, hf, hd, hw, hh, hz, hlimit, hG, hAF.mode, hcl⟩
+  have hst : ∀ r ∈ (bodyRun {} ops (run { w := { s0 with mode := mode } } ops).2).an ++
+      (bodyRun {} ops (run { w := { s0 with mode := mode } } ops).2).ns ++
+      (bodyRun {} ops (run { w := { s0 with mode := mode } } ops).2).ar, LayoutStable r := by
+    intro r hx
+    have hr : r.Typed := by
+      rcases List.mem_append.mp hx with h1 | h1
+      · rcases List.mem_append.mp h1 with h2 | h2
+        · exact hT.an r h2
+        · exact hT.ns r h2
+      · exact hT.ar r h1
+    exact layoutStable_of_lt hr.2.1 hr.2.2.1
+  obtain ⟨d2, hd2, haud⟩ := segment_audit macFn _ _ _ aF hIR hLR hst hC.modes hAF.mode m mac hf hsz
+  rw [hd] at hd2
+  cases hd2
+  exact ⟨m, mac, d, aF, hf, hd, hw, hh, hz, hlimit, hG, hAF.mode, haud, hcl⟩
 
 
 /-! ### the TSIG record -/
@@ -464,12 +480,13 @@ theorem segment_reduces_to_audit (macFn : Tsig → List UInt8 → List UInt8) (h
           { mode := Driver.toSpecMode mode, buflen := buf.size, limit := min limit buf.size }
           (ops.map Driver.toSpecOp)
           (obs { w := { s0 with mode := mode } } ops ++ ["ok"]) [m] (some d) mac' =
-        Message.auditPointers d aF.itemModes.reverse aF.mode := by
-  obtain ⟨m, mac, d, aF, hf, hd, hw, hh, hz, hlimit, hG, hmode, hq1, hq2, ha, hn, ds, tl, hadd, har, htl⟩ :=
+        Message.auditPointers d aF.itemModes.reverse aF.mode ∧
+      Message.auditPointers d aF.itemModes.reverse aF.mode = .ok () := by
+  obtain ⟨m, mac, d, aF, hf, hd, hw, hh, hz, hlimit, hG, hmode, haud, hq1, hq2, ha, hn, ds, tl, hadd, har, htl⟩ :=
     segment_from_new macFn hmac buf limit s0 hnew hlim mode ops ht hb hr hv hno mac'
   have hI0 : I { s0 with mode := mode } := (safe_setMode mode s0 (new_i buf limit s0 hnew)).2
   have hIR := (run_I { w := { s0 with mode := mode } } ops hI0 hr).2
-  refine ⟨m, mac, d, aF, hf, hd, ?_⟩
+  refine ⟨m, mac, d, aF, hf, hd, ?_, haud⟩
   rw [hw]
   refine checkSegment_eq aF d m.size mac' _ _ _ rfl hh.symm hz hq1 hq2 ha hn ?_ hlimit
   generalize (run { w := { s0 with mode := mode } } ops).1.w = sR at hf hG hmode htl hIR hml hmac'
